@@ -138,7 +138,8 @@ static size_t thrd_last_worker(struct thread_data *t) { return t->last_worker; }
 #ifdef U_SPQ_CREATE
 //@FUNC
 void create_thread(struct sched *self, struct init_data *data, thread_id_ref *thrd, int *ec)
-__CPROVER_requires(CREATE_PRE && data->scheduler_base == (void *) self)
+/* constructor invariant of shared_priority_queue_scheduler: at least one worker (the thread hint is reduced modulo num_workers_) */
+__CPROVER_requires(CREATE_PRE && data->scheduler_base == (void *) self && self->num_workers_ >= 1)
 /* one increment on every path -- including the refusal of an invalid hint mode, where nothing is created */
 __CPROVER_ensures(CREATE_POST)
 __CPROVER_ensures(g_qcreates == 0 ==> vx_exc == pika_error_bad_parameter)
